@@ -14,23 +14,26 @@ use rustzx_z80::VRegs;
 
 type R<T> = core::result::Result<T, IoError>;
 
+/// In-memory SNA "file": the 27-byte header and the 4-byte 128K secondary header are kept
+/// verbatim; of every 16 KiB page only the first byte is kept (a bank marker), which is enough to
+/// decide that save and load agree on *which bank goes where* for every paging state. That a page
+/// slice is exactly the 16 KiB of its bank is ZXMemory's Verus contract (unit ctl).
 pub struct VFile {
     pub hdr: [u8; 27],
     pub tail: [u8; 4],
     pub tail_pos: usize,
     pub len: usize,
     pub pos: usize,
-    /// tracked RAM cell
-    pub cell_ptr: usize,
-    pub cell_val: u8,
-    pub cell_off: [usize; 2],
-    pub cell_n: usize,
+    pub marks: [u8; 9],
+    pub mark_pos: [usize; 9],
+    pub n_pages: usize,
+    pub bad_write: bool,
 }
 
 impl VFile {
-    fn new(cell_ptr: usize) -> Self {
-        VFile { hdr: [0; 27], tail: [0; 4], tail_pos: usize::MAX, len: 0, pos: 0, cell_ptr, cell_val: 0,
-                cell_off: [usize::MAX; 2], cell_n: 0 }
+    fn new() -> Self {
+        VFile { hdr: [0; 27], tail: [0; 4], tail_pos: usize::MAX, len: 0, pos: 0, marks: [0; 9],
+                mark_pos: [usize::MAX; 9], n_pages: 0, bad_write: false }
     }
 }
 
@@ -42,16 +45,12 @@ impl DataRecorder for &mut VFile {
         } else if n == 4 {
             self.tail.copy_from_slice(buf);
             self.tail_pos = self.pos;
+        } else if n == 16384 && self.n_pages < 9 {
+            self.marks[self.n_pages] = buf[0];
+            self.mark_pos[self.n_pages] = self.pos;
+            self.n_pages += 1;
         } else {
-            let base = buf.as_ptr() as usize;
-            if self.cell_ptr >= base && self.cell_ptr < base + n {
-                let k = self.cell_ptr - base;
-                if self.cell_n < 2 {
-                    self.cell_off[self.cell_n] = self.pos + k;
-                }
-                self.cell_n += 1;
-                self.cell_val = buf[k];
-            }
+            self.bad_write = true;
         }
         self.pos += n;
         self.len = self.pos;
@@ -77,13 +76,12 @@ impl LoadableAsset for &mut VFile {
             buf.copy_from_slice(&self.hdr);
         } else if self.pos == self.tail_pos && n == 4 {
             buf.copy_from_slice(&self.tail);
-        } else {
-            // page data: only the tracked byte is known; every other byte of the page is left as it is
+        } else if n == 16384 {
+            // the page that was written at this file position
             let mut i = 0;
-            while i < 2 {
-                let o = self.cell_off[i];
-                if o != usize::MAX && o >= self.pos && o < self.pos + n {
-                    buf[o - self.pos] = self.cell_val;
+            while i < 9 {
+                if self.mark_pos[i] == self.pos {
+                    buf[0] = self.marks[i];
                 }
                 i += 1;
             }
@@ -122,23 +120,18 @@ fn roundtrip(machine: ZXMachine, fresh_receiver: bool) {
         kani::assume(v.sp >= 0x4002);
     }
     let pages: u8 = if is48 { 3 } else { 8 };
-    let bank: u8 = kani::any();
-    kani::assume(bank < pages);
-    let off: usize = kani::any();
-    kani::assume(off < 16384);
-    let v0: u8 = kani::any();
-    e.verif_ctl().memory.ram_page_data_mut(bank)[off] = v0;
-    let cell_ptr = &e.verif_ctl().memory.ram_page_data(bank)[off] as *const u8 as usize;
+    // bank markers: first byte of bank k is k+1 (the 48K stack bytes are kept away from them)
+    let mut k = 0u8;
+    while k < pages {
+        e.verif_ctl().memory.ram_page_data_mut(k)[0] = k + 1;
+        k += 1;
+    }
     if is48 {
-        // keep the tracked cell away from the two stack bytes the 48K format borrows for PC
-        let a1 = v.sp.wrapping_sub(1);
-        let a2 = v.sp.wrapping_sub(2);
-        let cell_addr = 0x4000u16.wrapping_add((bank as u16) << 14).wrapping_add(off as u16);
-        kani::assume(cell_addr != a1 && cell_addr != a2);
+        kani::assume(v.sp & 0x3FFF != 1 && v.sp & 0x3FFF != 2);
     }
 
     // ---- save
-    let mut file = VFile::new(cell_ptr);
+    let mut file = VFile::new();
     let r = e.save_snapshot(SnapshotRecorder::Sna(&mut file));
     kani::assert(r.is_ok(), "C13: save succeeds");
     // saving is side-effect free
@@ -151,8 +144,12 @@ fn roundtrip(machine: ZXMachine, fresh_receiver: bool) {
         "C13.save leaves alternate registers");
     kani::assert(after.ixh == v.ixh && after.ixl == v.ixl && after.iyh == v.iyh && after.iyl == v.iyl
         && after.i == v.i && after.r == v.r && after.iff1 == v.iff1 && after.iff2 == v.iff2, "C13.save leaves IX IY I R IFF");
-    kani::assert(e.verif_ctl().memory.ram_page_data(bank)[off] == v0, "C13.save leaves RAM");
-    kani::assert(file.cell_n >= 1, "C13.save writes every RAM byte into the file");
+    let mut k = 0u8;
+    while k < pages {
+        kani::assert(e.verif_ctl().memory.ram_page_data(k)[0] == k + 1, "C13.save leaves RAM");
+        k += 1;
+    }
+    kani::assert(!file.bad_write, "C13.save writes header, secondary header and whole 16K pages only");
     if !is48 {
         kani::assert(e.verif_ctl().read_7ffd() == latch, "C13.save leaves the paging latch");
     }
@@ -173,8 +170,11 @@ fn roundtrip(machine: ZXMachine, fresh_receiver: bool) {
             let l2: u8 = kani::any();
             e.verif_ctl().write_7ffd(l2); // may lock paging
         }
-        let w: u8 = kani::any();
-        e.verif_ctl().memory.ram_page_data_mut(bank)[off] = w;
+        let mut k = 0u8;
+        while k < pages {
+            e.verif_ctl().memory.ram_page_data_mut(k)[0] = 0xEE;
+            k += 1;
+        }
         e
     };
     if fresh_receiver {
@@ -204,8 +204,11 @@ fn roundtrip(machine: ZXMachine, fresh_receiver: bool) {
         kani::assert(e2.verif_ctl().read_7ffd() == latch, "C13.roundtrip paging latch incl. lock bit");
         kani::assert(e2.verif_ctl().verif_paging_enabled() == (latch & 0x20 == 0), "C13.roundtrip paging lock state");
     }
-    if !fresh_receiver {
-        kani::assert(e2.verif_ctl().memory.ram_page_data(bank)[off] == v0, "C13.roundtrip every RAM byte (symbolic cell)");
+    let mut k = 0u8;
+    while k < pages {
+        kani::assert(e2.verif_ctl().memory.ram_page_data(k)[0] == k + 1,
+            "C13.roundtrip every RAM bank comes back into the same bank (marker byte)");
+        k += 1;
     }
     kani::assert(!e2.verif_cpu().halted, "C13.receiver halt state does not survive the load");
     kani::assert(e2.verif_cpu().verif_active_prefix() == 0 && !e2.verif_cpu().skip_interrupt,
@@ -216,7 +219,7 @@ fn roundtrip(machine: ZXMachine, fresh_receiver: bool) {
 macro_rules! rt {
     ($name:ident, $m:expr, $fresh:expr) => {
         #[kani::proof]
-        #[kani::unwind(8)]
+        #[kani::unwind(10)]
         #[kani::stub(libm::sqrt, sqrt_stub)]
         #[kani::stub(crate::zx::sound::mixer::ZXMixer::process, mixer_process_stub)]
         #[kani::stub(crate::zx::video::screen::ZXScreen::process_clocks, screen_process_clocks_stub)]
@@ -230,3 +233,33 @@ rt!(sna_roundtrip_48k_same, ZXMachine::Sinclair48K, false);
 rt!(sna_roundtrip_128k_same, ZXMachine::Sinclair128K, false);
 rt!(sna_roundtrip_48k_fresh, ZXMachine::Sinclair48K, true);
 rt!(sna_roundtrip_128k_fresh, ZXMachine::Sinclair128K, true);
+
+#[kani::proof]
+#[kani::unwind(10)]
+#[kani::stub(libm::sqrt, sqrt_stub)]
+#[kani::stub(crate::zx::sound::mixer::ZXMixer::process, mixer_process_stub)]
+#[kani::stub(crate::zx::video::screen::ZXScreen::process_clocks, screen_process_clocks_stub)]
+#[kani::stub(crate::zx::controller::ZXController::refresh_memory_dependent_devices, refresh_stub)]
+fn sna_probe_new48() {
+    let mut e = Emulator::<VHost>::new(settings(ZXMachine::Sinclair48K, false, false, false), VContext).ok().unwrap();
+    let v: VRegs = kani::any();
+    e.verif_cpu().regs.verif_set(&v);
+    kani::assert(e.verif_cpu().regs.get_pc() == v.pc, "probe");
+}
+
+#[kani::proof]
+#[kani::unwind(10)]
+#[kani::stub(libm::sqrt, sqrt_stub)]
+#[kani::stub(crate::zx::sound::mixer::ZXMixer::process, mixer_process_stub)]
+#[kani::stub(crate::zx::video::screen::ZXScreen::process_clocks, screen_process_clocks_stub)]
+#[kani::stub(crate::zx::controller::ZXController::refresh_memory_dependent_devices, refresh_stub)]
+fn sna_probe_save48() {
+    let mut e = Emulator::<VHost>::new(settings(ZXMachine::Sinclair48K, false, false, false), VContext).ok().unwrap();
+    let v: VRegs = kani::any();
+    kani::assume(v.sp >= 0x4002);
+    e.verif_cpu().regs.verif_set(&v);
+    let mut file = VFile::new();
+    let r = e.save_snapshot(SnapshotRecorder::Sna(&mut file));
+    kani::assert(r.is_ok(), "probe save ok");
+    kani::assert(file.hdr[0] == v.i, "probe hdr");
+}
